@@ -242,13 +242,8 @@ func runReg(c Case, res *lib.Result) string {
 		}
 	} else {
 		mismatch := c.Declared == "wrongdigest" || c.Declared == "wrongsize" || c.Declared == "digestonly-wrong" || c.Declared == "sizeonly-wrong"
-		conforming := true
-		for _, a := range c.Script {
-			if a.K == "early201" {
-				conforming = false // 201 on PATCH is not in the distribution spec (ECR behaviour)
-			}
-		}
-		if !mismatch && conforming && (c.Seekable || c.Kind != "fallback") {
+		// (a non-seekable source can not be re-read after the failed single-request PUT: that upload may fail)
+		if !mismatch && (c.Seekable || c.Kind != "fallback") {
 			res.Fail("conforming-upload-failed kind="+c.Kind, fmt.Sprintf("well-formed %d-byte upload (chunk %d, script %v, keep %d) failed against a conforming registry: %v", len(c.Stream), c.Cap, c.Script, c.Keep, err), c)
 		}
 	}
